@@ -42,6 +42,7 @@ pub enum BroadCmd {
     SendOwnState {
         am_choked_map: HashMap<String, bool>,
     },
+    PieceReleased,
 }
 #[derive(Debug)]
 pub enum PeerCmd {
